@@ -610,7 +610,7 @@ def decorator_regex(run, model, rule="C07.layout-regex"):
     if not tests:
         raise AnalysisError("_represent.inspect_decorator: no test matching source lines against a module-level pattern was found")
     deco = ["@a", "    @name  # comment", "@a.b.setter", "  @_x(", "\t@icontract.require(", "@registry['x']", "@Z"]
-    defs = ["def f():", "  def  f():", "async def f():", "    async   def f(", "class C:", "    class  C(object):", "\tdef g(self):"]
+    defs = ["def f():", "  def  f():", "async def f():", "    async   def f(", "class C:", "    class  C(object):", "\tdef g(self):", "def\tf():", "class\tC:", "async\tdef\tf():", "    async def\tf():"]
     cont = ["default is None or x < default", "    defaults)", "classes = 1", "    class_name == 'x'", "definitely", "async_mode", "    x > 0", ")", "lambda x: x", "", "  # @comment", "    error=ValueError)", "x @ y", "    @ values", "@ w > 0", "    'def ' in x", "asynchronous = 1"]
     trees = {name: list(sre_parse.parse(p)) for name, p in patterns.items()}
     ends_on_def = False
